@@ -2,7 +2,7 @@
    steps are summable (steps_summable), hence tend to zero, hence -- pass_kkt_residual, resid_sq_le -- the KKT residual bounds of
    the m-th iterate tend to zero as m grows. *)
 From Coq Require Import List Arith Bool Reals Lra Lia Psatz.
-From TLV Require Import Base.Ops Base.PyList Base.Tensor Base.RSum Model.Nnls Proofs.NnlsProofs Proofs.NnlsProofsDescent Proofs.NnlsProofsConv Proofs.NnlsProofsTol0.
+From TLV Require Import Base.Ops Base.PyList Base.Tensor Base.RSum Model.Nnls Proofs.NnlsProofs Proofs.NnlsProofsDescent Proofs.NnlsProofsConv Proofs.NnlsProofsTol0 Proofs.NnlsProofsFista.
 Import ListNotations.
 Open Scope R_scope.
 
@@ -90,5 +90,29 @@ Proof.
   - rewrite hals_nnls_tol0; [reflexivity|]. unfold hals_rejects. rewrite NZ. reflexivity.
   - intros k j Hk Hj. cbv zeta. specialize (HN m Hm). cbv zeta in HN. destruct (HN k j Hk Hj) as (A1 & A2 & A3 & A4).
     exists (resid UtU r (iterl (S m) pass V) (iterl m pass V) k j). split; [apply resid_nonneg|]. auto.
+Qed.
+
+(* the COLD start (V = None): whatever tl.solve answered, the start clip-and-rescale(sol) may be infeasible (the scale can be
+   negative), but the first pass makes it feasible; from there the same limit statement holds *)
+Theorem hals_nnls_cold_converges_to_kkt sol : wfm r n sol ->
+  forall eps, 0 < eps -> exists N, forall m, (N <= m)%nat ->
+    exists Wm, hals_nnls Rops UtM UtU n None sol (S (S m)) 0 o = Ok Wm /\
+    forall k j, (k < r)%nat -> (j < n)%nat ->
+      let g := qp_grad r G (bf UtM j) (l1of o) (l2of o) (colf Wm j) k in
+      exists D, 0 <= D /\ 0 <= Mget Wm k j /\ - D <= g /\ Rabs (Mget Wm k j * g) <= Mget Wm k j * D /\
+                w * D^2 <= rsum r (fun l => (G k l)^2) * eps.
+Proof.
+  intros Ws eps He.
+  set (V0 := hals_init Rops UtM UtU n sol).
+  assert (W0 : wfm r n V0) by (apply hals_init_wfm; exact Ws).
+  set (V1 := pass V0).
+  assert (W1 : wfm r n V1) by (apply (pass_wfm UtM UtU r n o WB NZ); exact W0).
+  assert (F1 : forall i j, (i < r)%nat -> (j < n)%nat -> h_eps o <= Mget V1 i j).
+  { intros i j Hi Hj. apply (pass_ge_eps UtM UtU r n o WG WB NZ V0 i j W0 Hi Hj). left. now apply HG. }
+  destruct (kkt_residuals_tend_to_zero V1 W1 F1 eps He) as (N & HN). exists N. intros m Hm.
+  exists (iterl (S m) pass V1). split.
+  - rewrite hals_nnls_tol0; [reflexivity|]. unfold hals_rejects. rewrite NZ. reflexivity.
+  - intros k j Hk Hj. cbv zeta. specialize (HN m Hm). cbv zeta in HN. destruct (HN k j Hk Hj) as (A1 & A2 & A3 & A4).
+    exists (resid UtU r (iterl (S m) pass V1) (iterl m pass V1) k j). split; [apply resid_nonneg|]. auto.
 Qed.
 End Limit.
